@@ -26,6 +26,8 @@ def subjects():
     out = []
     for I in m.IFACES + (Interface,):
         out.append((('iface', I.__name__), I))
+    for f in m.FACTORIES:
+        out.append((('implements', f.__name__), implementedBy(f)))
     for T in m.BUILTINS:
         out.append((('implements', 'builtin:' + T.__name__), implementedBy(T)))
         out.append((('object', 'builtin:' + T.__name__, 'plain'), T()))
@@ -124,6 +126,13 @@ def dump_all(_):
     """Phase 1 (process A): local round trips; returns blobs + descriptions."""
     viol = []
     out = []
+    # legacy declaration shapes keep what was declared (a later declaration adds to it)
+    for nm_, want in m.EXPECTED_DECLARED.items():
+        got = sorted(i.__name__ for i in implementedBy(getattr(m, nm_)))
+        if got != sorted(want):
+            viol.append(dict(sig='C13:implements:legacy-declaration-lost:' + nm_,
+                             case=dict(sid=('legacy', nm_)),
+                             detail=dict(subject=nm_, iterates=got, declared=want)))
     # pickles taken by a dependent *while* declarations were being applied
     if len(m.OBSERVER.results) < 3 or any(r is not True for r in m.OBSERVER.results):
         viol.append(dict(sig='C13:implements:not-identical-while-a-declaration-is-applied',
@@ -167,6 +176,9 @@ def load_all(items):
 
 def replay(case):
     sid = tuple(case['sid'])
+    if sid[0] == 'legacy':
+        got = sorted(i.__name__ for i in implementedBy(getattr(m, sid[1])))
+        return dict(iterates=got) if got != sorted(m.EXPECTED_DECLARED[sid[1]]) else None
     if sid == ('observer',):
         r = m.OBSERVER.results
         return dict(results=r) if (len(r) < 3 or any(x is not True for x in r)) else None
